@@ -46,7 +46,7 @@ SPEC = {
     "components_real": ["fakesnow/*", "sqlglot", "duckdb engine (in-memory)"],
     "components_stubbed": ["thread scheduling (serial: one thread in list order; otherwise baton over real threads)"],
     "assumptions": ["writes of different sessions never touch the same table (the property says non-conflicting writes)"],
-    "mandatory_probes": {"any": ["foreign_read_during_open_txn", "foreign_read_after_commit", "rollback", "commit_without_txn", "own_read_in_txn", "fail_in_txn", "preempt_inside_op", "table_created_in_txn", "runtime_failure_in_txn"]},
+    "mandatory_probes": {"any": ["foreign_read_during_open_txn", "foreign_read_after_commit", "rollback", "commit_without_txn", "own_read_in_txn", "fail_in_txn", "preempt_inside_op", "table_created_in_txn", "runtime_failure_in_txn", "close_with_open_txn", "rolled_back_create"]},
 }
 
 
@@ -72,7 +72,14 @@ def gen(rng: Any, prop: str, tier: str) -> dict[str, Any]:
     for _ in range(rng.randint(10, 36)):
         sid = rng.choice(sids)
         cur = rng.choice([0, 0, 1])
-        kind = rng.choices(["begin", "end", "insert", "read", "read2", "delete_own", "fail", "end_noop", "create_in_txn", "fail_runtime"], [5, 7, 12, 12, 2, 2, 2, 1, 2, 1])[0]
+        kind = rng.choices(["begin", "end", "insert", "read", "read2", "delete_own", "fail", "end_noop", "create_in_txn", "fail_runtime", "close_reopen"], [5, 7, 12, 12, 2, 2, 2, 1, 2, 1, 1])[0]
+        if kind == "close_reopen":
+            # the connection goes away (with whatever transaction it has open: never committed, so never visible) and a new one takes its place
+            ops.append({"s": sid, "k": "close", "txn": "close"})
+            ops.append({"s": sid, "k": "connect", "database": DB, "schema": SC})
+            open_txn[sid] = False
+            mine_in_txn[sid] = []
+            continue
         if kind == "fail_runtime":
             if open_txn[sid]:
                 # a statement failing at run time (not because of what it refers to): the engine aborts its transaction.
@@ -193,6 +200,16 @@ def check_history(history: list[dict[str, Any]], probes: dict[str, int]) -> dict
                     return v_("raises/connect", "connect failed", brief(h))
                 continue
             t = op.get("txn")
+            if t == "close":
+                if not out.get("ok"):
+                    return v_(f"raises/close/{out.get('exc')}", "close() failed", brief(h))
+                if cur is not None:
+                    # closing ends the transaction without COMMIT: from here on it counts as rolled back
+                    probes["close_with_open_txn"] = probes.get("close_with_open_txn", 0) + 1
+                    cur["end"] = h
+                    cur["state"] = "rolledback"
+                    cur = None
+                continue
             if op.get("fail_runtime"):
                 probes["runtime_failure_in_txn"] = probes.get("runtime_failure_in_txn", 0) + 1
                 if out.get("ok"):
@@ -363,7 +380,7 @@ def expected_final(history: list[dict[str, Any]]) -> dict[str, list[int]]:
                 for t, i in pending or []:
                     out.setdefault(t, set()).add(i)
                 pending = None
-            elif op.get("txn") == "rollback":
+            elif op.get("txn") in ("rollback", "close"):
                 pending = None
             elif "w" in op:
                 for i in op["w"]["ids"]:
@@ -393,7 +410,7 @@ def rolled_back_tables(history: list[dict[str, Any]]) -> set[str]:
                 pending, failed = [], False
             elif op.get("txn") == "commit":
                 pending = None
-            elif op.get("txn") == "rollback":
+            elif op.get("txn") in ("rollback", "close"):
                 if ok and pending and not failed:
                     gone.update(pending)
                 pending = None
